@@ -18,10 +18,51 @@ import collections, json
 import sa
 from core import *
 
+# limb-level callees: (destination argument, [(length argument, multiplier)...]) = number of limbs written
+MPN_EXTENTS = {}
+for _n in ("add_n", "sub_n", "and_n", "andn_n", "nand_n", "ior_n", "iorn_n", "nior_n", "xor_n", "xnor_n"):
+    MPN_EXTENTS["__gmpn_" + _n] = [(0, [(3, 1)])]
+for _n in ("add_1", "sub_1", "mul_1", "addmul_1", "submul_1", "lshift", "rshift", "copyi", "copyd", "com_n", "neg_n",
+           "divexact_1", "divexact_by3c", "lshift1", "rshift1"):
+    MPN_EXTENTS["__gmpn_" + _n] = [(0, [(2, 1)])]
+MPN_EXTENTS["__gmpn_add"] = MPN_EXTENTS["__gmpn_sub"] = [(0, [(2, 1)])]
+MPN_EXTENTS["__gmpn_mul"] = [(0, [(2, 1), (4, 1)])]
+MPN_EXTENTS["__gmpn_mul_n"] = [(0, [(3, 2)])]
+MPN_EXTENTS["__gmpn_sqr"] = [(0, [(2, 2)])]
+MPN_EXTENTS["__gmpn_zero"] = [(0, [(1, 1)])]
+MPN_EXTENTS["__gmpn_tdiv_qr"] = [(1, [(6, 1)])]
+MPN_EXTENTS["__gmpn_divrem_1"] = [(0, [(1, 1), (3, 1)])]
+
 OBJ = {"__mpz_struct": "mpz", "__mpq_struct": "mpq", "__mpf_struct": "mpf"}
 SCALAR_FIELDS = {"_mp_size", "_mp_alloc", "_mp_prec", "_mp_exp"}
 REALLOC_FNS = {"__gmpz_realloc", "__gmpz_realloc2", "_mpz_realloc"}
 TMP_ALLOC = {"__gmp_tmp_reentrant_alloc", "__builtin_alloca", "__gmp_tmp_debug_alloc", "__gmp_tmp_alloc"}
+
+
+# ---- linear terms over symbolic integers (R-EXTENT) --------------------------------------------------
+# Term = (const, frozenset((symbol, coef)...)); a symbol stands for "the value some variable had at some point".
+def T(c=0, syms=()):
+    return (c, frozenset((s, k) for s, k in syms if k))
+
+
+def tadd(a, b, sign=1):
+    if a is None or b is None:
+        return None
+    d = dict(a[1])
+    for s_, k in b[1]:
+        d[s_] = d.get(s_, 0) + sign * k
+    return (a[0] + sign * b[0], frozenset((s_, k) for s_, k in d.items() if k))
+
+
+def tscale(a, k):
+    if a is None:
+        return None
+    return (a[0] * k, frozenset((s_, c * k) for s_, c in a[1] if c * k))
+
+
+def tconst(a):
+    """the integer value if the term is a constant, else None"""
+    return a[0] if a is not None and not a[1] else None
 
 
 def objkind(ct):
@@ -42,19 +83,38 @@ def rtype(r):
 
 
 class State:
-    __slots__ = ("obj", "limb", "written", "callval")
+    __slots__ = ("obj", "limb", "written", "env", "alloc", "off")
 
-    def __init__(self, obj=None, limb=None, written=None):
+    def __init__(self, obj=None, limb=None, written=None, env=None, alloc=None, off=None):
         self.obj = dict(obj or {})          # var id -> frozenset(regions)
-        self.limb = dict(limb or {})        # var id -> frozenset((region, fresh, line_of_invalidation))
+        self.limb = dict(limb or {})        # var id -> frozenset((region, fresh, line_of_invalidation, is_base))
         self.written = dict(written or {})  # region -> {component: line}
+        self.env = dict(env or {})          # integer var id -> Term (absent = the variable's own entry symbol)
+        self.alloc = dict(alloc or {})      # region -> (Term lower bound of its allocation in limbs, line)
+        self.off = dict(off or {})          # limb pointer var id -> Term offset from the base of its (single) region
 
     def copy(self):
-        s = State(self.obj, self.limb, {k: dict(v) for k, v in self.written.items()})
+        s = State(self.obj, self.limb, {k: dict(v) for k, v in self.written.items()}, self.env, self.alloc, self.off)
         return s
 
-    def join(self, o):
+    def join(self, o, where=0):
         ch = False
+        # terms: equal or forgotten (a join symbol per (block, variable) keeps loops finite)
+        for k in set(self.env) | set(o.env):
+            a, b = self.env.get(k, T(0, [(("v", k, 0), 1)])), o.env.get(k, T(0, [(("v", k, 0), 1)]))
+            if a != b:
+                n = T(0, [(("phi", where, k), 1)])
+                if self.env.get(k) != n:
+                    self.env[k] = n
+                    ch = True
+        for k in list(self.alloc):
+            if k not in o.alloc or o.alloc[k][0] != self.alloc[k][0]:
+                del self.alloc[k]
+                ch = True
+        for k in list(self.off):
+            if o.off.get(k, "absent") != self.off[k]:
+                del self.off[k]
+                ch = True
         for k, v in o.obj.items():
             n = self.obj.get(k, frozenset()) | v
             if n != self.obj.get(k):
@@ -250,6 +310,95 @@ class Analysis:
             return "free"
         return None
 
+    # ---- linear terms ---------------------------------------------------------------------------
+    def term(self, e, st):
+        if not isinstance(e, dict):
+            return None
+        k = e.get("k")
+        if k == "int":
+            return T(e["v"])
+        if k == "var":
+            ct = e.get("ct", "")
+            if "*" in ct or "[" in ct or "struct" in ct:
+                return None
+            return st.env.get(e["id"], T(0, [(("v", e["id"], 0), 1)]))
+        if k == "cast":
+            return self.term(e["e"], st)
+        if k == "binop" and e["op"] in ("+", "-"):
+            return tadd(self.term(e["l"], st), self.term(e["r"], st), 1 if e["op"] == "+" else -1)
+        if k == "binop" and e["op"] == "*":
+            l, r = self.term(e["l"], st), self.term(e["r"], st)
+            if tconst(l) is not None:
+                return tscale(r, tconst(l))
+            if tconst(r) is not None:
+                return tscale(l, tconst(r))
+            return None
+        if k == "binop" and e["op"] == "<<":
+            r = tconst(self.term(e["r"], st))
+            if r is not None and 0 <= r < 32:
+                return tscale(self.term(e["l"], st), 1 << r)
+            return None
+        if k == "unop" and e["op"] == "-":
+            return tscale(self.term(e["e"], st), -1)
+        if k == "binop" and e["op"] in ("=", ","):
+            return self.term(e["r"], st)
+        return None
+
+    def offset(self, e, st):
+        """Term offset (in limbs) of pointer expression e from the base of its region, or None"""
+        if not isinstance(e, dict):
+            return None
+        k = e.get("k")
+        if k == "var":
+            return st.off.get(e["id"])
+        if k == "member" and e["field"] == "_mp_d":
+            return T(0)
+        if k == "cast":
+            return self.offset(e["e"], st)
+        if k == "binop" and e["op"] in ("+", "-"):
+            lo = self.offset(e["l"], st)
+            if lo is not None:
+                return tadd(lo, self.term(e["r"], st), 1 if e["op"] == "+" else -1)
+            if e["op"] == "+":
+                ro = self.offset(e["r"], st)
+                if ro is not None:
+                    return tadd(ro, self.term(e["l"], st))
+            return None
+        if k == "binop" and e["op"] in ("=", ","):
+            return self.offset(e["r"], st)
+        if k == "cond":
+            a, b = self.offset(e["a"], st), self.offset(e["b"], st)
+            return a if a is not None and a == b else None
+        if k == "call" and e.get("callee") in REALLOC_FNS:
+            return T(0)
+        if k == "unop" and e["op"] == "&" and e["e"].get("k") == "index":
+            return tadd(self.offset(e["e"]["base"], st), self.term(e["e"]["idx"], st))
+        return None
+
+    def check_extent(self, ptr_expr, extra, st, line, what):
+        """a write of limbs [off, off+extra) (extra is a Term: index+1 or a length) through ptr_expr"""
+        v = self.eval(ptr_expr, st)
+        if not v or v[0] != "limb" or len(v[1]) != 1:
+            return
+        (r, fresh, l0, bs) = next(iter(v[1]))
+        if r not in st.alloc or not fresh:
+            return
+        self.stats["extent_obligations"] += 1
+        E, eline = st.alloc[r]
+        end = tadd(self.offset(ptr_expr, st), extra)
+        d = tconst(tadd(end, E, -1)) if end is not None else None
+        if d is None:
+            self.stats["extent_undecided"] += 1
+        elif d <= 0:
+            self.stats["extent_proved"] += 1
+        elif ("R-EXTENT", self.fn["name"], self.rname(r)) in self.exceptions:
+            self.stats["reviewed_exceptions"] += 1
+        else:
+            self.stats["extent_refuted"] += 1
+            self.rep("R-EXTENT", line, "overrun:%s" % self.rname(r),
+                     "%s at line %d writes %d limb%s past the %s requested for %s at line %d (the allocation is only known to hold what "
+                     "MPZ_REALLOC / the size test asked for)" % (what, line, d, "" if d == 1 else "s", "size", self.rname(r), eline))
+
     # ---- events ---------------------------------------------------------------------------------
     def rep(self, rule, line, sig, what):
         key = (rule, sig, line)
@@ -260,6 +409,9 @@ class Analysis:
 
     def invalidate(self, regions, st, ne, line, why):
         """the blocks of `regions` may move / be freed: pointers into them and into may-aliases go stale"""
+        for r in list(st.alloc):
+            if any(self.may_alias(r, w, ne) for w in regions):
+                del st.alloc[r]
         for vid, vals in list(st.limb.items()):
             new = set()
             for (r, fresh, l0, bs) in vals:
@@ -335,6 +487,9 @@ class Analysis:
             if vals and vals[0] and vals[0][0] == "obj":
                 self.invalidate(vals[0][1], st, ne, line, c)
                 self.stats["realloc_events"] += 1
+                n = self.term(args[1], st) if len(args) > 1 and c != "__gmpz_realloc2" else None
+                if n is not None and len(vals[0][1]) == 1:
+                    st.alloc[next(iter(vals[0][1]))] = (n, line)
             return
         kind = self.is_allocator_call(e) if c is None else None
         if kind in ("free", "realloc"):
@@ -346,6 +501,15 @@ class Analysis:
             return
         if kind == "alloc" or c in TMP_ALLOC or (c or "").startswith("__builtin_"):
             return
+        ext = MPN_EXTENTS.get(c)
+        if ext:
+            for dst, lens in ext:
+                if dst < len(args) and all(i < len(args) for i, _ in lens):
+                    ln = T(0)
+                    for i, k in lens:
+                        ln = tadd(ln, tscale(self.term(args[i], st), k))
+                    if ln is not None:
+                        self.check_extent(args[dst], ln, st, line, "%s" % c)
         # reads first (the callee may read every operand before it writes), then writes
         outs = []
         for i, v in enumerate(vals):
@@ -402,16 +566,32 @@ class Analysis:
         k = lhs.get("k")
         if k == "var":
             vid = lhs["id"]
+            ct = lhs.get("ct", "")
+            isint = "*" not in ct and "[" not in ct and "struct" not in ct
+            if isint:
+                rv = None                   # a pointer difference / cast is a number, not a pointer
             if compound:
                 if vid in st.limb:          # p += n keeps the regions but is no longer the base pointer
                     st.limb[vid] = frozenset((r, f, l, False) for (r, f, l, b) in st.limb[vid])
+                    st.off.pop(vid, None)
+                elif isint:
+                    st.env[vid] = T(0, [(("v", vid, line), 1)])
                 return
             st.obj.pop(vid, None)
             st.limb.pop(vid, None)
+            st.off.pop(vid, None)
             if rv and rv[0] == "obj":
                 st.obj[vid] = rv[1]
             elif rv and rv[0] == "limb":
                 st.limb[vid] = rv[1]
+                o = self.offset(rhs, st)
+                if o is not None and len(rv[1]) == 1:
+                    st.off[vid] = o
+            elif isint:
+                t = self.term(rhs, st) if rhs is not None else None
+                # the variable's old value may appear in other terms: those keep their meaning because terms name
+                # values (symbols), not variables
+                st.env[vid] = t if t is not None else T(0, [(("v", vid, line), 1)])
             return
         if k == "member":
             base = self.eval(lhs["base"], st) if lhs["arrow"] else ("obj", self.objlvalue(lhs["base"], st))
@@ -419,6 +599,12 @@ class Analysis:
                 f = lhs["field"]
                 if f == "_mp_size":
                     self.write(base[1], "size", st, line)
+                elif f == "_mp_alloc":
+                    t = self.term(rhs, st) if rhs is not None else None
+                    for r in base[1]:
+                        st.alloc.pop(r, None)
+                    if t is not None and len(base[1]) == 1:
+                        st.alloc[next(iter(base[1]))] = (t, line)
                 elif f == "_mp_d":
                     # a new block is installed; the old one stays allocated until somebody frees it (mpz_mul / mpz_sqrt
                     # keep it in free_me while it is still a source), so nothing goes stale here
@@ -433,6 +619,9 @@ class Analysis:
             if v and v[0] == "limb":
                 self.use_limb(v, st, line, self.argname(p), "stored through")
                 self.write({r for (r, f, l, b) in v[1]}, "limbs", st, line)
+                idx = tadd(self.term(lhs["idx"], st), T(1)) if k == "index" else T(1)
+                if idx is not None:
+                    self.check_extent(p, idx, st, line, "the store through %s" % self.argname(p))
 
     def elem(self, el, st, ne):
         e = el["e"]
@@ -457,7 +646,17 @@ class Analysis:
             if k == "binop" and n["op"].endswith("=") and n["op"] not in ("==", "!=", "<=", ">="):
                 self.scan_reads(n["r"], st, ne, line)
                 self.scan_reads(n["l"], st, ne, line)
-                self.assign(n["l"], None, st, ne, line, compound=True)
+                lv = n["l"]
+                if n["op"] in ("+=", "-=") and lv.get("k") == "var" and lv["id"] not in st.limb and "*" not in lv.get("ct", ""):
+                    t = tadd(st.env.get(lv["id"], T(0, [(("v", lv["id"], 0), 1)])), self.term(n["r"], st), 1 if n["op"] == "+=" else -1)
+                    st.env[lv["id"]] = t if t is not None else T(0, [(("v", lv["id"], line), 1)])
+                elif n["op"] in ("+=", "-=") and lv.get("k") == "var" and lv["id"] in st.limb and lv["id"] in st.off:
+                    o = tadd(st.off[lv["id"]], self.term(n["r"], st), 1 if n["op"] == "+=" else -1)
+                    self.assign(lv, None, st, ne, line, compound=True)
+                    if o is not None:
+                        st.off[lv["id"]] = o
+                else:
+                    self.assign(lv, None, st, ne, line, compound=True)
                 return False
             if k == "decl":
                 for d in n["decls"]:
@@ -469,9 +668,15 @@ class Analysis:
                 if n.get("e"):
                     self.scan_reads(n["e"], st, ne, line)
                 return False
-            if k == "unop" and n["op"] in ("post++", "post--", "pre++", "pre--") and n["e"].get("k") == "var" and n["e"]["id"] in st.limb:
+            if k == "unop" and n["op"] in ("post++", "post--", "pre++", "pre--") and n["e"].get("k") == "var":
                 vid = n["e"]["id"]
-                st.limb[vid] = frozenset((r, f, l, False) for (r, f, l, b) in st.limb[vid])
+                d = 1 if "++" in n["op"] else -1
+                if vid in st.limb:
+                    st.limb[vid] = frozenset((r, f, l, False) for (r, f, l, b) in st.limb[vid])
+                    if vid in st.off:
+                        st.off[vid] = tadd(st.off[vid], T(d))
+                elif "*" not in n["e"].get("ct", ""):
+                    st.env[vid] = tadd(st.env.get(vid, T(0, [(("v", vid, 0), 1)])), T(d))
         before = len(self.seen_reports)
         sa.walk(e, f)
         if e.get("k") not in ("binop", "decl", "return") or (e.get("k") == "binop" and not e["op"].endswith("=") or e.get("op") in ("==", "!=", "<=", ">=")):
@@ -484,6 +689,22 @@ class Analysis:
         while isinstance(c, dict) and c.get("k") == "unop" and c["op"] == "!":
             c = sa.strip_expect(c["e"])
             neg = not neg
+        if isinstance(c, dict) and c.get("k") == "binop" and c["op"] in ("<", ">", "<=", ">="):
+            # ALLOC(z) < n  /  n > ALLOC(z): on the edge where the allocation suffices it is known to be >= n
+            t = truth != neg
+            for a_, b_, op in ((c["l"], c["r"], c["op"]), (c["r"], c["l"], {"<": ">", ">": "<", "<=": ">=", ">=": "<="}[c["op"]])):
+                while isinstance(a_, dict) and a_.get("k") == "cast":
+                    a_ = a_["e"]
+                if isinstance(a_, dict) and a_.get("k") == "member" and a_["field"] == "_mp_alloc":
+                    base = self.eval(a_["base"], st) if a_["arrow"] else ("obj", self.objlvalue(a_["base"], st))
+                    n_ = self.term(b_, st)
+                    if base and base[0] == "obj" and base[1] and len(base[1]) == 1 and n_ is not None:
+                        r = next(iter(base[1]))
+                        if (op == "<" and not t) or (op == ">=" and t):          # alloc >= n
+                            st.alloc[r] = (n_, c.get("line", 0) or 0)
+                        elif (op == "<=" and not t) or (op == ">" and t):        # alloc >= n + 1
+                            st.alloc[r] = (tadd(n_, T(1)), 0)
+            return ne
         if not isinstance(c, dict) or c.get("k") != "binop" or c["op"] not in ("==", "!="):
             return ne
         a, b = self.eval(c["l"], st), self.eval(c["r"], st)
@@ -564,7 +785,11 @@ class Analysis:
                 if not isinstance(s, int) or s == fn["exit"]:
                     continue
                 for ne, st in outs:
-                    ne2 = self.refine(cond, si == 0, st, ne) if cond else ne
+                    if cond:
+                        st = st.copy()          # refinement is per edge
+                        ne2 = self.refine(cond, si == 0, st, ne)
+                    else:
+                        ne2 = ne
                     key = (ne2, self.objkey(st))
                     cur = IN[s].get(key)
                     if cur is None:
@@ -572,7 +797,7 @@ class Analysis:
                             raise AnalysisBroken("aliasflow: more than 256 alias partitions in %s" % fn["name"])
                         IN[s][key] = st.copy()
                         work.append(s)
-                    elif cur.join(st):
+                    elif cur.join(st, s):
                         work.append(s)
         self.stats["partitions_max"] = max(self.stats.get("partitions_max", 0), max((len(v) for v in IN.values()), default=0))
 
